@@ -1,4 +1,5 @@
 import Oidc.Proofs.CacheLru
+import Oidc.Proofs.CacheImpl
 import Oidc.Facts
 /-! # C13 — capacity, eviction order, atomic operations (property theorems only) -/
 namespace Oidc.Props.C13
@@ -32,6 +33,29 @@ theorem lru_loss (se : Bool) (cap : Nat) (hc : 0 < cap) (ops : List Op) (now : I
       ∀ u ∈ used, u ∈ sinceOf e.key (useLog se (init cap) (ops ++ [.set now x v ttl])) :=
   Oidc.Cache.lru_loss se cap hc ops now x v ttl e he hx hlost hnoexp
 
+/-! ## the three structures of cache.go (`items`, `order`, `elems`)
+
+`Oidc.CacheImpl` models `Set`/`Get`/`Delete`/`Cleanup`/`evictOldest`/`removeItem` statement by statement on the item map, the
+LRU list of keys and the element map; it is the model the correspondence runs execute (the driver predicts the contents of all
+three structures, the harness reads them through the snapshot hook).  The statements above are about the abstract list
+`Oidc.Cache`; the simulation below carries them over. -/
+
+/-- **simulation.** after any history the three structures represent (`R`) the abstract cache after the same history, and a
+    lookup returns the same answer -/
+theorem impl_refines (se : Bool) (cap : Nat) (ops : List Op) (now : Int) (k : String) :
+    Oidc.CacheImpl.R (Oidc.CacheImpl.run se (Oidc.CacheImpl.init cap) ops) (run se (init cap) ops) ∧
+    (Oidc.CacheImpl.get se (Oidc.CacheImpl.run se (Oidc.CacheImpl.init cap) ops) now k).2 = (get se (run se (init cap) ops) now k).2 :=
+  ⟨Oidc.CacheImpl.R_run se cap ops, Oidc.CacheImpl.get_refines se cap ops now k⟩
+
+/-- **internal consistency.** after any history: no key twice in the LRU list, in the element map or in the item map; the three
+    hold exactly the same keys and have the same size, at most the capacity -/
+theorem three_structures_consistent (se : Bool) (cap : Nat) (hc : 0 < cap) (ops : List Op) :
+    let c := Oidc.CacheImpl.run se (Oidc.CacheImpl.init cap) ops
+    c.order.Nodup ∧ c.elems.Nodup ∧ NoDup c.items ∧
+    (∀ k, k ∈ c.elems ↔ k ∈ c.order) ∧ (∀ k, k ∈ c.order ↔ lookup c.items k ≠ none) ∧
+    c.items.length = c.order.length ∧ c.order.length ≤ cap :=
+  Oidc.CacheImpl.consistent se cap hc ops
+
 /-- whole operations are atomic (one mutex held throughout — regenerated lock-discipline fact), so every
     concurrent execution of per-goroutine operation lists is *some* interleaving, i.e. some history; all
     statements above, quantified over all histories, therefore hold for it -/
@@ -51,6 +75,9 @@ theorem size_le_cap_current (ops : List Op) :
   (size_le_cap _ _ facts_ok.2.2.2.2.2.2 ops).1
 
 example : (run false (init 2) [.set 0 "a" 1 100, .set 1 "b" 2 100, .get 2 "a", .set 3 "c" 3 100]).order.map (·.key)
+    = ["a", "c"] := by decide
+
+example : (Oidc.CacheImpl.run false (Oidc.CacheImpl.init 2) [.set 0 "a" 1 100, .set 1 "b" 2 100, .get 2 "a", .set 3 "c" 3 100]).order
     = ["a", "c"] := by decide
 
 end Oidc.Props.C13
